@@ -51,8 +51,14 @@ Definition append_int (x : Z) (w : nat) : str :=
 Record civil := { cy : Z; cmo : Z; cd : Z; chh : Z; cmi : Z; css : Z }.
 
 (* the wall clock of [t] in its own zone *)
+(* Go keeps the instant as a 64-bit count of seconds since the year -292277022399 and computes
+   dates from it with wrapping uint64 arithmetic; for |seconds| below ~9.2e18 - 6.2e10 this is
+   the identity, beyond it the date wraps exactly as modelled here *)
+Definition unix_to_absolute : Z := 9223372028715321600.
+Definition abs_wrap (a : Z) : Z := (a + unix_to_absolute) mod 2 ^ 64 - unix_to_absolute.
+
 Definition civil_of (t : gtime) : civil :=
-  let a := tsec t + toff t in
+  let a := abs_wrap (tsec t + toff t) in
   let days := a / 86400 in
   let r := a mod 86400 in
   let '(y, m, d) := civil_from_days days in
